@@ -133,6 +133,27 @@ def concretise(c, rnd):
     raise ValueError(f)
 
 
+IDS = ["r", "r", "r", "gr\u00f6\u00dfe", "\u03941", "r\u00e9f-2", "r_a-b"]
+WS = [" ", " ", " ", "  ", "&#9;", "\t", "\n", " &#10; "]
+
+
+def respell(xml, rnd):
+    """The same document with the reference element under another (possibly non-ASCII) id
+    and with other white space where a relspec separates its parts."""
+    import re
+    rid = rnd.choice(IDS)
+    if rid != "r":
+        xml = xml.replace('id="r"', f'id="{rid}"')
+        xml = re.sub(r"#r(?![A-Za-z0-9_])", "#" + rid, xml)
+    ws = rnd.choice(WS)
+    if ws != " ":
+        # inside attribute values that hold a reference: between the relspec and what follows it
+        def sub(m):
+            return m.group(1) + m.group(2).replace(" ", ws) + m.group(3)
+        xml = re.sub(r'((?:xy|cxy|xy1|xy2|wh|x|y|width|height)=")([#^][^"]*)(")', sub, xml)
+    return xml
+
+
 def instance_bbox(el, case):
     """box of a reuse instance: a shape by its attributes, a group by its translate() applied to the template's box"""
     import re
@@ -202,7 +223,8 @@ def run(rep, tier, seed):
             recs += l[:max(300, limit // len(by))]
     cases = []
     for j, c in enumerate(recs):
-        xml = concretise(c, random.Random(rnd.random()))
+        r2 = random.Random(rnd.random())
+        xml = respell(concretise(c, r2), r2)
         cases.append({"k": f"c09-{j}", "xml": xml, "case": c, "key": xml})
 
     geom.run_and_compare(rep, cases, rel_check, "c09")
